@@ -82,7 +82,7 @@ def _gen_shake(tier, rng):
   yield {'kind': 'shake', 'snips': [b'\x00\x01\x02'.hex(), b'\xff'.hex()], 'L': 4}
   Ls = [2, 3, 4, 5, 8] if tier == 'quick' else [2, 3, 4, 5, 6, 7, 8, 9, 16]
   for L in Ls:
-    for m in range(0, 4):
+    for m in range(0, 3 if tier == 'quick' else 4):
       for d in (-2, -1, 0, 1, 2):
         total = m * L + 1 + d          # joined_length - 1 around multiples of L
         for n in ((1, 2) if tier == 'quick' else (1, 2, 3)):
@@ -101,7 +101,7 @@ WORDS = ['the', 'a', 'to', 'i', 'is', 'in', 'of', 'and', 'it', 'for']
 
 
 def _gen_tok(tier, rng):
-  n = {'quick': 24, 'thorough': 120, 'search': 60}[tier]
+  n = {'quick': 18, 'thorough': 120, 'search': 60}[tier]
   for i in range(n):
     V = rng.choice([1, 3, 5, 10])
     buckets = 1 if i % 3 else rng.choice([1, 2, 3])
@@ -165,12 +165,11 @@ def _gen_domain(tier, rng):
     yield {'kind': 'domain', 'id': bad.hex()}
 
 
-ROW_MODELS = ['emnist_conv', 'emnist_dense', 'emnist_logistic', 'cifar100_logistic', 'shakespeare_lstm', 'stackoverflow_lstm',
-              'stackoverflow_lstm_scaled']
+ROW_MODELS = ['emnist_conv', 'emnist_dense', 'emnist_logistic', 'cifar100_logistic', 'shakespeare_lstm', 'stackoverflow_lstm']
 
 
 def _gen_lmloss(tier, rng):
-  n = {'quick': 16, 'thorough': 80, 'search': 40}[tier]
+  n = {'quick': 12, 'thorough': 80, 'search': 40}[tier]
   for i in range(n):
     B, T = rng.choice([1, 2, 3, 4]), rng.choice([1, 2, 3, 5])
     # first PAD position per row: full rows (T), partially padded rows, all-PAD rows (0), mixed in one batch
@@ -179,20 +178,32 @@ def _gen_lmloss(tier, rng):
       pads[0], pads[1] = T, max(0, T - 2)
     m = ('shakespeare', 'stackoverflow')[i % 2]
     yield {'kind': 'lmloss', 'model': m, 'seed': rng.randrange(2 ** 31), 'B': B, 'T': T, 'pad_from': pads,
-           'el': (None if m == 'shakespeare' else [None, 13.3, 2.0][i // 2 % 3])}
+           'el': (None if m == 'shakespeare' else [None, 13.3, 2.0][i // 2 % 3]), 'ctx': i % 5 == 0}
 
 
 def generate(tier, rng):
+  for c in _generate(tier, rng):
+    if tier == 'quick' and c['kind'] == 'shake' and sum(len(h) for h in c['snips']) % 4 >= 2:
+      c = {**c, 'metrics': False}          # quick tier: packaged metrics on half of the tokeniser cases
+    yield c
+
+
+def _generate(tier, rng):
   yield {'kind': 'consts'}
   for c in _gen_lmloss(tier, rng):
     yield c
   for g in (_gen_shake, _gen_tok, _gen_crops, _gen_std, _gen_domain):
     for c in g(tier, rng):
       yield c
+  for i in range({'quick': 6, 'thorough': 40, 'search': 12}[tier]):
+    yield {'kind': 'misc', 'which': ('emnist', 'cifar')[i % 2], 'n': [3, 0, 1, 2, 5, 4][i % 6], 'seed': rng.randrange(2 ** 31),
+           'writer': rng.choice([2099, 2100, 2599, 2600, 0, 9999])}
   if tier != 'search':
-    for m in ROW_MODELS:
+    extra = ['emnist_stax_dense'] if tier == 'quick' else ['emnist_stax_dense', 'emnist_conv_digits', 'emnist_logistic_digits',
+                                                            'stackoverflow_lstm_scaled']
+    for m in ROW_MODELS + extra:
       for rep in range(1 if tier == 'quick' else 3):
-        yield {'kind': 'rowindep', 'model': m, 'seed': rng.randrange(2 ** 31), 'batch': rng.choice([3, 4, 5])}
+        yield {'kind': 'rowindep', 'model': m, 'seed': rng.randrange(2 ** 31), 'batch': 3 if tier == 'quick' else rng.choice([3, 4, 5])}
     for t in ('SHAKESPEARE_CHARACTER', 'STACKOVERFLOW_WORD', 'CIFAR100_LOGISTIC', 'EMNIST_CONV', 'EMNIST_LOGISTIC', 'EMNIST_DENSE'):
       yield {'kind': 'tasks', 'task': t}
 
@@ -316,7 +327,23 @@ def _run_shake(case):
   x, y = out['x'], out['y']
   obs = {'status': 'ok', 'x': x.tolist(), 'y': y.tolist(), 'dtype': [str(x.dtype), str(y.dtype)],
          'shape': [list(x.shape), list(y.shape)], 'keys': sorted(out)}
-  if case['L'] >= 2 and x.ndim == 2 and 0 < x.shape[0] * x.shape[1] <= 400 and int(max(x.max(), y.max())) < SH_VOCAB_SIZE:
+  # other delivery forms of the same client (list / tuple of bytes, numpy integer length, str client id,
+  # extra features present), the same call again, and the caller's data afterwards
+  raw = [bytes.fromhex(h) for h in case['snips']]
+  kept = (x.copy(), y.copy())
+  same = lambda o: o['x'].dtype == x.dtype and np.array_equal(o['x'], kept[0]) and np.array_equal(o['y'], kept[1])
+  forms_ok = True
+  try:
+    for sn, cid, L in ((list(raw), 'client', np.int64(case['L'])), (tuple(raw), b'', np.int32(case['L'])), (snips, 0, case['L'])):
+      forms_ok = forms_ok and same(shakespeare.preprocess_client(cid, {'snippets': sn, 'other': np.zeros(1)}, L))
+    shakespeare.preprocess_client(b'c2', {'snippets': [b'zz' + bytes([i % 256]) for i in range(3)]}, max(2, case['L']))
+  except Exception:  # pylint: disable=broad-except
+    forms_ok = False
+  obs['forms_ok'] = bool(forms_ok)
+  obs['kept_ok'] = bool(np.array_equal(x, kept[0]) and np.array_equal(y, kept[1]) and not np.shares_memory(x, y))
+  obs['input_ok'] = [bytes(v) for v in snips] == raw and len(snips) == len(raw)
+  if case['L'] >= 2 and x.ndim == 2 and 0 < x.shape[0] * x.shape[1] <= 400 and int(max(x.max(), y.max())) < SH_VOCAB_SIZE \
+      and case.get('metrics', True):
     from fedjax.models import shakespeare as ms
     model = _cached('sh_model', lambda: ms.create_lstm_model(lstm_hidden_size=4, embed_size=2, lstm_num_layers=1))
     obs['metrics'] = _lm_metrics(model, x, y, SH_VOCAB_SIZE, _choice_fn(y, SH_OOV, len(case['snips'])))
@@ -347,7 +374,13 @@ def _run_consts(case):
   sh = ms.create_lstm_model(lstm_hidden_size=2, embed_size=2, lstm_num_layers=1)
   so = mso.create_lstm_model(vocab_size=10, lstm_hidden_size=2, embed_size=2)
   import inspect
-  return {'status': 'ok',
+  ids_first = (_metric_ids(sh), _metric_ids(so))
+  ms.create_lstm_model(vocab_size=5, lstm_hidden_size=2, embed_size=2, lstm_num_layers=1)
+  mso.create_lstm_model(vocab_size=3, lstm_hidden_size=2, embed_size=2, expected_length=2.0)
+  mso.create_lstm_model(vocab_size=10, lstm_hidden_size=2, embed_size=2, share_input_output_embeddings=True)
+  reuse_ok = ids_first == (_metric_ids(sh), _metric_ids(so)) and \
+      _metric_ids(ms.create_lstm_model(lstm_hidden_size=2, embed_size=2, lstm_num_layers=1)) == ids_first[0]
+  return {'status': 'ok', 'reuse_ok': bool(reuse_ok),
           'sh': {'PAD': int(shakespeare.PAD), 'BOS': int(shakespeare.BOS), 'EOS': int(shakespeare.EOS),
                  'OOV': int(shakespeare.OOV), 'VOCAB_SIZE': int(shakespeare.VOCAB_SIZE),
                  'TABLE': [int(v) for v in shakespeare.TABLE], 'table_dtype': str(shakespeare.TABLE.dtype)},
@@ -369,11 +402,39 @@ def _run_tok(case):
   for i, ws in enumerate(case['sentences']):
     toks[i] = ' '.join(ws).encode()
   dom = np.arange(len(toks), dtype=np.int32) % 2
-  out = tok.as_preprocess_batch(case['max_length'])({'tokens': toks, 'domain_id': dom})
+  fn = _cached(('tokfn', key, case['max_length']), lambda: tok.as_preprocess_batch(case['max_length']))
+  out = fn({'tokens': toks, 'domain_id': dom})
   x, y = out['x'], out['y']
   obs = {'status': 'ok', 'x': x.tolist(), 'y': y.tolist(), 'dtype': [str(x.dtype), str(y.dtype)],
          'shape': [list(x.shape), list(y.shape)], 'keys': sorted(out),
          'domain_kept': bool(np.array_equal(out.get('domain_id'), dom))}
+  ml = case['max_length']
+  ok = True
+  try:
+    other = _cached(('tokfn', key, ml + 2), lambda: tok.as_preprocess_batch(ml + 2))   # another function of the SAME tokenizer, used in between
+    other({'tokens': toks})
+    fixed = np.array([bytes(t) for t in toks], dtype='S') if len(toks) else np.zeros((0,), 'S1')
+    for form in (fixed, toks.copy()):
+      o2 = fn({'tokens': form})                         # the same function object again
+      ok = ok and sorted(o2) == ['x', 'y'] and np.array_equal(o2['x'], x) and np.array_equal(o2['y'], y)
+    if sum(len(ws) for ws in case['sentences']) % 3 == 0:
+      import tensorflow as tf
+      fx, fy = tok.create_token_to_ids_fn(ml)(tf.constant([bytes(t) for t in toks], dtype=tf.string))
+      ok = ok and np.array_equal(fx.numpy(), x) and np.array_equal(fy.numpy(), y)
+      base = _cached(('tokbase', tuple(case['vocab']), case['buckets']),
+                     lambda: stackoverflow.DefaultWordTokenizer(list(case['vocab']), case['buckets']))
+      o3 = base.as_preprocess_batch(max_length=ml)({'tokens': toks})
+      ok = ok and np.array_equal(o3['x'], x) and np.array_equal(o3['y'], y)
+    e = fn({'tokens': np.empty((0,), dtype=object)})
+    ok = ok and e['x'].shape == (0, ml) and e['y'].shape == (0, ml) and e['x'].dtype == np.int32
+    ok = ok and [bytes(t) for t in toks] == [' '.join(ws).encode() for ws in case['sentences']]     # caller's tokens untouched
+    pc = stackoverflow.preprocess_client(b'c', {'tokens': toks, 'type': np.array([b'answer', b'question'] * len(toks), dtype=object)[:len(toks)],
+                                               'title': toks, 'score': np.zeros(len(toks), np.int64)})
+    ok = ok and sorted(pc) == ['domain_id', 'tokens'] and pc['domain_id'].dtype == np.int32 and \
+        pc['domain_id'].tolist() == [1, 0] * (len(toks) // 2) + [1] * (len(toks) % 2) and list(pc['tokens']) == list(toks)
+  except Exception:  # pylint: disable=broad-except
+    ok = False
+  obs['forms_ok'] = bool(ok)
   if case['buckets'] == 1:
     from fedjax.models import stackoverflow as mso
     V = len(case['vocab'])
@@ -557,12 +618,88 @@ def _run_domain(case):
     ex = emnist.preprocess_client(cid, {'pixels': np.zeros((3, 28, 28), np.float32), 'label': np.array([1, 2, 3], np.int32)})
     obs['feature'] = [int(v) for v in ex['domain_id']]
     obs['feature_dtype'] = str(ex['domain_id'].dtype)
+    alt = [emnist.domain_id(cid.decode('latin-1')), emnist.domain_id(np.bytes_(cid)), emnist.domain_id(cid)]
+    for dt in (np.int64, np.uint8, np.int8):
+      e2 = emnist.preprocess_client(cid, {'pixels': np.zeros((2, 28, 28), np.float32), 'label': np.array([0, 61], dt)})
+      alt += [int(v) for v in e2['domain_id']] + ([int(d)] if e2['domain_id'].dtype == dt and sorted(e2) == ['domain_id', 'label', 'pixels'] else [-1])
+    e0 = emnist.preprocess_client(cid, {'pixels': np.zeros((0, 28, 28), np.float32), 'label': np.zeros((0,), np.int32)})
+    obs['alt_ok'] = all(int(v) == int(d) for v in alt) and e0['domain_id'].shape == (0,)
   except Exception as ex_:  # pylint: disable=broad-except
     obs['feature'] = 'raise:' + type(ex_).__name__
   return obs
 
 
+def _run_misc(case):
+  """Thin wrappers and remaining entry points of the packaged datasets, each against its documented meaning."""
+  from fedjax.datasets import cifar100, emnist
+  rs = np.random.RandomState(case['seed'] % (2 ** 32))
+  n = case['n']
+  bad = []
+  if case['which'] == 'emnist':
+    # pixels are multiples of 1/8 so that 1 - pixels is exact in float32
+    pix = (rs.randint(0, 9, size=(n, 28, 28)) / 8.0).astype(np.float32)
+    lab = rs.randint(0, 62, size=n).astype(np.int32)
+    dom = rs.randint(0, 2, size=n).astype(np.int32)
+    ex = {'pixels': pix, 'label': lab, 'domain_id': dom}
+    keep = {k: v.copy() for k, v in ex.items()}
+    out = emnist.preprocess_batch(ex)
+    if sorted(out) != ['domain_id', 'x', 'y'] or out['x'].shape != (n, 28, 28, 1) or out['x'].dtype != np.float32:
+      bad.append('emnist.preprocess_batch: keys / x shape / dtype')
+    elif not (np.array_equal(out['x'][..., 0], (8 - np.round(pix * 8)) / 8.0) and np.array_equal(out['y'], lab) and np.array_equal(out['domain_id'], dom)):
+      bad.append('emnist.preprocess_batch: x != 1 - pixels or y / domain_id not passed through')
+    if any(not np.array_equal(ex[k], keep[k]) for k in keep) or sorted(ex) != sorted(keep):
+      bad.append('emnist.preprocess_batch modified its input')
+    import fedjax
+    cid = b'0123456789abcdef:f%04d_01' % case['writer']
+    fd = emnist.preprocess_split(fedjax.InMemoryFederatedData({cid: {'pixels': pix, 'label': lab}}))
+    got = fd.get_client(cid).all_examples()
+    want = 0 if 2100 <= case['writer'] <= 2599 else 1
+    if n and not (sorted(got) == ['domain_id', 'x', 'y'] and got['domain_id'].tolist() == [want] * n and got['x'].shape == (n, 28, 28, 1)
+                  and np.array_equal(got['y'], lab)):
+      bad.append('emnist.preprocess_split: features of a client')
+  else:
+    img = rs.randint(0, 256, size=(n, 32, 32, 3)).astype(np.uint8)
+    lab64 = rs.randint(0, 100, size=n).astype(np.int64)
+    keep = img.copy()
+    pc = cifar100.preprocess_client(b'c', {'image': img, 'label': lab64, 'coarse_label': lab64 // 5})
+    if sorted(pc) != ['x', 'y'] or pc['y'].dtype != np.int32 or not np.array_equal(pc['y'], lab64) or not np.array_equal(pc['x'], keep):
+      bad.append('cifar100.preprocess_client: x / y')
+    st = np.random.get_state()[1].copy()
+    ev = cifar100.preprocess_batch({'x': img, 'y': pc['y']}, is_train=False)
+    tf_ = cifar100.preprocess_batch_tff({'x': img, 'y': pc['y']})
+    tf2 = cifar100.preprocess_batch_tff(examples={'x': img[:, ::1][:, :, ::1], 'y': pc['y']}, crop_height=24, crop_width=24, distort=False)
+    if not np.array_equal(np.random.get_state()[1], st):
+      bad.append('an eval-time preprocessing path consumed the global numpy random state')
+    mean = np.array([0.4914, 0.4822, 0.4465]); std = np.array([0.2023, 0.1994, 0.2010])
+    ref = (img.astype(np.float64) / 255 - mean) / std
+    if ev['x'].shape != (n, 32, 32, 3) or ev['x'].dtype != np.float32 or (n and float(np.max(np.abs(ev['x'] - ref))) > 1e-4) or ev['y'] is not pc['y'] and not np.array_equal(ev['y'], pc['y']):
+      bad.append('cifar100.preprocess_batch(is_train=False) is not (x/255 - mean) / std per channel')
+    direct = cifar100.preprocess_image_tff(img, 24, 24, False) if n else np.zeros((0, 24, 24, 3), np.float32)
+    if tf_['x'].shape != (n, 24, 24, 3) or tf_['x'].dtype != np.float32 or not np.array_equal(tf_['y'], pc['y']) or \
+        (n and not (np.array_equal(tf_['x'], direct) and np.array_equal(tf2['x'], direct))):
+      bad.append('cifar100.preprocess_batch_tff is not preprocess_image_tff(24, 24, distort=False) on x with y passed through')
+    # one image alone = the same image inside the batch (per-image statistics), a non-contiguous input view included
+    if n >= 2:
+      one = cifar100.preprocess_image_tff(img[1:2], 24, 24, False)
+      view = cifar100.preprocess_image_tff(np.concatenate([img, img], axis=0)[::2][:n] if False else img[::-1][::-1], 24, 24, False)
+      if float(np.max(np.abs(one[0] - direct[1]))) > 1e-5 or not np.array_equal(view, direct):
+        bad.append('preprocess_image_tff: an image alone / a strided input differs from the same image in the batch')
+    if not np.array_equal(img, keep):
+      bad.append('a cifar100 preprocessing function modified the uint8 images it was given')
+    tr = cifar100.preprocess_batch({'x': img, 'y': pc['y']}, is_train=True)
+    if tr['x'].shape != (n, 32, 32, 3) or tr['x'].dtype != np.float32 or not np.array_equal(img, keep):
+      bad.append('cifar100.preprocess_batch(is_train=True): shape / dtype / input modified')
+  return {'status': 'ok', 'bad': bad}
+
+
 def _row_model(name):
+  from fedjax import models
+  if name == 'emnist_stax_dense':
+    return models.emnist.create_stax_dense_model(only_digits=False, hidden_units=16), 'img28'
+  if name == 'emnist_conv_digits':
+    return models.emnist.create_conv_model(only_digits=True), 'img28d'
+  if name == 'emnist_logistic_digits':
+    return models.emnist.create_logistic_model(only_digits=True), 'img28d'
   from fedjax import models
   if name == 'emnist_conv':
     return models.emnist.create_conv_model(only_digits=False), 'img28'
@@ -585,8 +722,8 @@ def _run_rowindep(case):
   model, kind = _cached(('rowm', case['model']), lambda: _row_model(case['model']))
   rng = np.random.RandomState(case['seed'] % (2 ** 32))
   B = case['batch']
-  if kind == 'img28':
-    batch = {'x': rng.rand(B, 28, 28, 1).astype(np.float32), 'y': rng.randint(0, 62, size=B).astype(np.int32)}
+  if kind in ('img28', 'img28d'):
+    batch = {'x': rng.rand(B, 28, 28, 1).astype(np.float32), 'y': rng.randint(0, 62 if kind == 'img28' else 10, size=B).astype(np.int32)}
   elif kind == 'img24':
     batch = {'x': rng.randn(B, 24, 24, 3).astype(np.float32), 'y': rng.randint(0, 100, size=B).astype(np.int32)}
   else:
@@ -601,7 +738,14 @@ def _run_rowindep(case):
     batch = {'x': x, 'y': y}
   params = model.init(jax.random.PRNGKey(case['seed'] % 1000))
   full = np.asarray(model.apply_for_eval(params, batch), np.float64)
-  worst = 0.0
+  want_classes = {'img28': 62, 'img28d': 10, 'img24': 100, 'seq90': 90, 'seq24': 24}[kind]
+  if full.shape[-1] != want_classes or full.shape[0] != B:
+    return {'status': 'ok', 'worst': float('inf'), 'metric_worst': 0.0, 'scale': 0.0, 'finite': True}
+  # the model object is reused: the same call again, and init() again after the applies, give the same numbers
+  again = np.asarray(model.apply_for_eval(params, batch), np.float64)
+  p2 = model.init(jax.random.PRNGKey(case['seed'] % 1000))
+  reinit = np.asarray(model.apply_for_eval(p2, batch), np.float64)
+  worst = float(max(np.max(np.abs(again - full)), np.max(np.abs(reinit - full))))
   alones = []
   for i in range(B):
     one = {k: v[i:i + 1] for k, v in batch.items()}
@@ -613,7 +757,7 @@ def _run_rowindep(case):
   jb = jax.tree_util.tree_map(jnp.asarray, batch)
   for name, m in model.eval_metrics.items():
     per_row = jax.vmap(m.evaluate_example)(jb, jnp.asarray(full, jnp.float32))
-    for i in range(B):
+    for i in range(B if B > 3 else 2):        # quick tier (B = 3): the padded row and one full row
       one = {k: jnp.asarray(v[i:i + 1]) for k, v in batch.items()}
       st = jax.vmap(m.evaluate_example)(one, jnp.asarray(alones[i]))
       for f in ('accum', 'weight'):
@@ -678,12 +822,20 @@ def _run_lmloss(case):
     alone.append(float(np.asarray(model.train_loss({'x': y[i:i + 1], 'y': y[i:i + 1]}, jnp.asarray(logits[i:i + 1]))).reshape(-1)[0]))
     rows = np.array([(i + 1) % len(y), i])
     paired.append(float(np.asarray(model.train_loss({'x': y[rows], 'y': y[rows]}, jnp.asarray(logits[rows]))).reshape(-1)[1]))
+  ctx = None
+  if case.get('ctx'):                       # execution contexts: the same loss jitted and with jit disabled
+    import jax
+    jl = np.asarray(jax.jit(model.train_loss)(batch, jnp.asarray(logits)), np.float64).reshape(-1)
+    with jax.disable_jit():
+      nl = np.asarray(model.train_loss(batch, jnp.asarray(logits)), np.float64).reshape(-1)
+    ctx = float(max(np.max(np.abs(jl - full), initial=0.0), np.max(np.abs(nl - full), initial=0.0))) \
+        if jl.shape == full.shape == nl.shape else float('inf')
   # per-token cross entropy, float64, from the logits alone
   l64 = logits.astype(np.float64)
   lse = np.log(np.exp(l64 - l64.max(-1, keepdims=True)).sum(-1)) + l64.max(-1)
   ce = lse - np.take_along_axis(l64, y[..., None].astype(np.int64), axis=-1)[..., 0]
   return {'status': 'ok', 'loss': [float(v) for v in full], 'alone': alone, 'paired': paired, 'y': y.tolist(),
-          'ce': [[str(Fraction(float(np.float32(v)))) for v in row] for row in ce], 'shape_ok': full.shape == (len(y),)}
+          'ce': [[str(Fraction(float(np.float32(v)))) for v in row] for row in ce], 'shape_ok': full.shape == (len(y),), 'ctx': ctx}
 
 
 def _run_tasks(case):
@@ -738,13 +890,20 @@ def _run_tasks(case):
       def load_split(split, mode='sqlite', cache_dir=None):
         return fedjax.InMemoryFederatedData(raw)
       patch(datasets.cifar100, 'load_split', load_split)
-    train, test, model = tasks.get_task(task)
+    train, test, model = tasks.get_task(task) if len(task) % 2 else tasks.get_task(name=task, mode='sqlite', cache_dir=None)
     obs = {'status': 'ok', 'calls': calls}
+    try:
+      tasks.get_task(task.lower())
+      obs['bad_name'] = 'accepted'
+    except ValueError:
+      obs['bad_name'] = 'ValueError'
+    obs['all_tasks'] = sorted(tasks.ALL_TASKS)
     for nm, fd in (('train', train), ('test', test)):
       ds = fd.get_client(b'0123456789abcdef:f2100_07' if task.startswith('EMNIST') else b'c0')
       b = next(iter(ds.padded_batch(batch_size=4)))
       params = _cached(('task_params', task), lambda: model.init(jax.random.PRNGKey(0)))
-      pred = np.asarray(model.apply_for_eval(params, b))
+      pkey = (task, tuple(b['x'].shape), hash(np.asarray(b['x']).tobytes()))
+      pred = _cached(('task_pred',) + pkey, lambda: np.asarray(model.apply_for_eval(params, b)))
       obs[nm] = {'x_shape': list(b['x'].shape), 'y_shape': list(b['y'].shape), 'x_dtype': str(b['x'].dtype),
                  'y_max': int(np.max(b['y'])), 'x_max': float(np.max(b['x'])), 'pred_shape': list(pred.shape),
                  'pred_finite': bool(np.all(np.isfinite(pred)))}
@@ -775,6 +934,8 @@ def run(case):
       return _run_rowindep(case)
     if k == 'lmloss':
       return _run_lmloss(case)
+    if k == 'misc':
+      return _run_misc(case)
     return _run_tasks(case)
 
 
@@ -816,6 +977,10 @@ def _oracle_shake(case, obs):
     out.append(('shake-pad', 'padding is not exactly the tail after the stream'))
   if len(fx) != -(-n // L) * L:
     out.append(('shake-padlen', f'padded length {len(fx)} is not the smallest multiple of {L} holding {n} labels'))
+  if obs.get('forms_ok') is False:
+    out.append(('shake-forms', 'the same snippets given as a list / tuple, a numpy integer sequence_length, another client id or extra features give a different result (or raise)'))
+  if obs.get('kept_ok') is False or obs.get('input_ok') is False:
+    out.append(('shake-impure', 'the snippets were modified, x and y share memory, or an earlier result changed after later calls'))
   if 'metrics' in obs:
     y = np.array(ys, dtype=np.int64).reshape(len(ys), L)
     exp = _expected_lm(y, SH_OOV, SH_VOCAB_SIZE, _choice_fn(y, SH_OOV, len(case['snips'])))
@@ -850,6 +1015,8 @@ def _oracle_ids(name, ids, pad, bos, eos, oov, vocab):
 
 def _oracle_consts(case, obs):
   out = []
+  if obs.get('reuse_ok') is False:
+    out.append(('model-reuse', 'building further packaged models with other vocabulary sizes changed the label ids held by an earlier model'))
   sh = obs['sh']
   if (sh['PAD'], sh['BOS'], sh['EOS'], sh['OOV'], sh['VOCAB_SIZE']) != (PAD, BOS, EOS, SH_OOV, SH_VOCAB_SIZE):
     out.append(('shake-consts', 'PAD/BOS/EOS/OOV/VOCAB_SIZE differ from 0/1/2/len(vocab)+3/len(vocab)+4'))
@@ -903,6 +1070,9 @@ def _oracle_tok(case, obs):
       break
   if not obs.get('domain_kept'):
     out.append(('tok-domain', 'domain_id is not passed through'))
+  if obs.get('forms_ok') is False:
+    out.append(('tok-forms', 'the same sentences through a fixed-width bytes array / create_token_to_ids_fn / DefaultWordTokenizer / a reused '
+                'tokenizer give other ids, an empty batch is not [0, max_length] int32, or stackoverflow.preprocess_client is wrong'))
   if 'metrics' in obs and not out:
     y = np.array(obs['y'], dtype=np.int64).reshape(len(obs['y']), ml)
     exp = _expected_lm(y, V + 3, V + 4, _choice_fn(y, V + 3, ml))
@@ -978,6 +1148,8 @@ def _oracle_domain(case, obs):
     out.append(('domain-range', f'writer f{num:04d} gets domain {obs["d"]}, documented ranges give {want}'))
   if obs.get('feature') != [want] * 3:
     out.append(('domain-feature', 'preprocess_client does not attach the domain id to every example'))
+  if obs.get('alt_ok') is False:
+    out.append(('domain-forms', 'the id as str / numpy bytes, another label dtype or an empty client gives a different domain id / feature'))
   return out
 
 
@@ -995,9 +1167,13 @@ def oracle(case, obs):
     return _oracle_std(case, obs)
   if k == 'domain':
     return _oracle_domain(case, obs)
+  if k == 'misc':
+    return [(f'misc-{case["which"]}', '; '.join(obs['bad']))] if obs['bad'] else []
   if k == 'lmloss':
     if not obs['shape_ok'] or not all(math.isfinite(v) for v in obs['loss'] + obs['alone'] + obs['paired']):
       return [(f'trainloss-rowdep-{case["model"]}', 'per-example training loss is not one finite value per row (alone or inside a batch)')]
+    if obs.get('ctx') is not None and not (obs['ctx'] <= 1e-5 * (1 + max(abs(v) for v in obs['loss'] + [0.0]))):
+      return [(f'trainloss-context-{case["model"]}', f'train_loss differs by {obs["ctx"]} between eager, jitted and jit-disabled execution')]
     for i, (a, b, c) in enumerate(zip(obs['loss'], obs['alone'], obs['paired'])):
       if abs(a - b) > 1e-5 * (1 + abs(b)) or abs(c - b) > 1e-5 * (1 + abs(b)):
         return [(f'trainloss-rowdep-{case["model"]}',
@@ -1018,6 +1194,8 @@ def oracle(case, obs):
     return [('tasks-raise', f'get_task({case["task"]}) pipeline -> model failed: {obs.get("err")}')]
   out = []
   t = case['task']
+  if obs.get('bad_name') != 'ValueError' or t not in obs.get('all_tasks', [t]):
+    out.append(('tasks-names', 'an unknown task name is accepted, or a task is missing from ALL_TASKS'))
   for nm in ('train', 'test'):
     o = obs[nm]
     if not o['pred_finite'] or o['pred_shape'][:len(o['y_shape'])] != o['y_shape']:
